@@ -59,7 +59,7 @@ CHECKS = {
          "All points and all ids of zooms 0..11 (quick) / 0..15 (thorough) forward, inverse, adjacency and children clauses; boundary products for zooms up to 31; ids around every zoom-block edge; 9k out-of-grid / z>=32 lookups against an archive holding every id those probes are mapped to.",
          "trusts harness/src/spec/hilbert.rs (the specification's reference loop, checked against its published vectors)", "4/C07"),
  "C08": ("exploration", "bounded-exhaustive enumeration of deterministic neighbourhoods (every prefix, every boundary byte substitution, every boundary deviation of every varint/header field) of valid archives plus a hazard corpus, executed in isolated worker processes",
-         "31k inputs quick (every prefix and 5 substitutions per byte of 12 base archives, 9 boundary values in every varint field of every directory with lengths fixed up or stale, 10 values in every header u64, all 256 codes of enum/zoom/version bytes, 70+ hand-built hazards incl. counts to 2^64-1, wrapping sums, zero first offset, offsets near 2^64, self-pointing leaf, cycles, chains to 10^4; thorough: all pairs of deviations) through 20+ reader/lookup/partial-open/re-write/async calls each, inside workers with RLIMIT_AS 8 GiB, 8 MiB stack and a 20 s alarm: any panic, abort, stack overflow or timeout is attributed to the input and call in flight.",
+         "31k inputs quick (every prefix and 5 substitutions per byte of 12 base archives, 9 boundary values in every varint field of every directory with lengths fixed up or stale, 10 values in every header u64, all 256 codes of enum/zoom/version bytes, 70+ hand-built hazards incl. counts to 2^64-1, wrapping sums, zero first offset, offsets near 2^64, self-pointing leaf, cycles, chains to 10^4; thorough: all pairs of deviations) through 20+ reader/lookup/partial-open/re-write/async calls each, inside workers with RLIMIT_AS 8 GiB, 8 MiB stack and a 60 s alarm: any panic, abort, stack overflow or timeout is attributed to the input and call in flight.",
          "inputs declaring more than 2^22 tiles/steps (lenient reference walk) are skipped and counted, as the property allows; overflow checks on", "4/C08"),
  "C09": ("exploration", "exhaustive sweep of stored coordinate values (all 2^32 in thorough) and boundary enumeration of every header field, against a hand-written LE codec and an exact-rational rounding oracle",
          "decode->encode byte identity for every stored coordinate value (quick: 1.3M incl. all |v|<=2^17; thorough: all 2^32 per field), degrees->stored against the exact nearest multiple of 1e-7 (integer arithmetic on mantissa/exponent), every u64 field one-hot+boundaries, every code 0..255 of each enum/version/clustered byte, every truncation 0..126, trailing bytes; sync and async paths.",
